@@ -206,5 +206,18 @@ CLAIMED['C03'] = dict(
     technique="TLA+ heap/frame-condition model with negative tests checked by TLC; TLC-generated shapes; heap snapshot "
               "traces of the real operators validated by TLC",
     design="3/C03")
+CLAIMED['C20'] = dict(
+    text="ZeroRows.tla states, as TLC-checked lemmas over the definition modules (RelJoin, SetDefs, DedupDefs, GroupDefs), what "
+         "every operator definition gives when an input has a header and no data rows (inner joins and intersections empty, "
+         "outer joins / complements / cat the other side, dedup and grouping empty, isunique true) and emits the expected row "
+         "counts per operator and input position; the algorithm models MergeJoin, HashJoin, SetOps, Dedup, GroupBy and ExtSort "
+         "are run on their zero/one-row instances (NoCrash, result = definition). The whole catalogue (140 view constructors) "
+         "and 19 scalar accessors are run with a header-only table in every input position: no exception on construction, "
+         "full iteration and a second pass, the usual header, and the row count the definitions prescribe.",
+    note="Operators whose header is computed from data (transpose, pivot, recast, unpackdict without keys, facet) are only "
+         "required not to raise; exact rows for empty-sided joins and set operations are compared in C06-C08.",
+    technique="TLA+ zero-row lemmas and zero-row instances of the algorithm models checked by TLC; TLC-emitted expectations "
+              "replayed on the whole operator catalogue",
+    design="3/C20")
 
 NOT_APPLICABLE = {}
